@@ -94,7 +94,7 @@ def pem_stage(ctx, dialects=None, with_cases=True):
 
 def run(cfg, tier, seed, replay=None):
     R = vlib.Result("PEM", tier, seed, "translation_validation")
-    cb = vlib.coq_build([], ["theories/Corr/Pem.vo"])
+    cb = vlib.coq_build(["theories/Props/Pem.v"], ["theories/Corr/Pem.vo"])
     if cb["rc"] != 0:
         vlib.log(cb["log"])
         R.violation("broken-theorem", dict(what="Pem development does not build", log=cb["log"][-2000:]), False)
